@@ -259,6 +259,7 @@ pub fn mintadmit(data: &[u8]) {
             truncate: if u.int_in_range(0u8..=9)? == 0 { u.int_in_range(1u8..=40)? } else { 0 },
             badge: u.arbitrary()?,
             foreign: if u.int_in_range(0u8..=3)? == 0 { u.int_in_range(1u8..=3)? } else { 0 },
+            own_mint_reward: u.int_in_range(0u8..=2).unwrap_or(0),
             offered_to: u.int_in_range(0u8..=2)?,
         })
     })() else {
